@@ -1,13 +1,22 @@
 # C03: running the resume experiment on the implementation and judging it (property oracle).
+#
+# For a case (configuration, history of positions / engine forces) and every stop step K and format:
+#   U  uninterrupted run                      A  run that writes its state after step K and goes on
+#   B  fresh instance, same configuration, loads that state, writes it back at once, re-executes step K and goes on
+# The property demands B = U (values, energies, forces at every step from K on; final state).  It is checked as
+#   A = U  (writing the state does not change the run)            -> finding kind "save-side-effect"
+#   B = A  (what is loaded continues like what was saved)         -> finding kind "resume"
+#   the state written back right after loading = the loaded file  -> finding kind "save-after-load"
+#   loading a state the same configuration wrote must not fail    -> finding kind "load-error"
 import os, sys, json, subprocess
 from concurrent.futures import ThreadPoolExecutor
 import vcommon as V
 import resume as R
 
-JOBS = min(4, V.NPROC)
+JOBS = max(1, min(4, V.NPROC))
 
 
-def run_scenario(exe, lines, timeout=600):
+def run_scenario(exe, lines, timeout=900):
     try:
         p = subprocess.run([exe], input="\n".join(lines) + "\n", stdout=subprocess.PIPE, stderr=subprocess.PIPE,
                            text=True, errors="replace", timeout=timeout)
@@ -16,30 +25,37 @@ def run_scenario(exe, lines, timeout=600):
         return 124, [], "TIMEOUT"
 
 
-def plan(c):
-    runs = [("U",)]
-    for fmt in c["fmts"]:
-        if c.get("check_save_side_effects", True):
-            runs.append(("C", fmt))
-            break
-    for K in c["Ks"]:
-        for fmt in c["fmts"]:
-            runs.append(("R", K, fmt))
-    return runs
-
-
 def obs_class(obs):
-    """observable name without instance names: energy, cv, bias, atomf, state:<keyword>, it, err"""
-    return obs.split(":")[0] if not obs.startswith("state:") else obs
+    """observable name without instance names: energy, cv, bias, atomf, log, state:<keyword>, it, err"""
+    return obs if obs.startswith("state:") else obs.split(":")[0]
+
+
+def first_diff(sa, sb, fa, fb, off=0, tol=R.TOL, resumed=False):
+    """first difference between step lists sa[off:] and sb, then between final state files; (t, (obs, a, b)) or None"""
+    for j, b in enumerate(sb):
+        if off + j >= len(sa):
+            return (off + j, ("steps", len(sa), off + len(sb)))
+        dd = R.diff_blocks(sa[off + j], b, tol)
+        if dd and resumed and j == 0 and dd[0].startswith("log") and not b["log"]:
+            dd = None    # lines written while step K was first executed belong to the stopped run: not expected again
+        if dd:
+            return (off + j, dd)
+    if len(sa) - off != len(sb):
+        return (len(sa) - 1, ("steps", len(sa) - off, len(sb)))
+    ds = R.diff_states(fa, fb, tol)
+    if ds:
+        return (None, ("state:" + ds[0], ds[1], ds[2]))
+    return None
 
 
 def judge(c, d, out, rc, err):
-    """-> list of findings {sig, what, K, fmt, kind}.  kind: resume | save-after-load | save-side-effect | load-error | harness"""
+    """-> list of findings {kind, sig, what, K, fmt, ...}"""
     F = []
     fam = c["fam"]
     pre = os.path.join(d, "c%s_" % c["id"])
     runs = R.parse_runs(out)
     T = len(c["pos"])
+    it0 = c.get("it0", 0)
 
     def add(kind, sig, what, K=None, fmt=None, **kw):
         f = {"kind": kind, "sig": sig, "what": what, "K": K, "fmt": fmt}
@@ -47,132 +63,89 @@ def judge(c, d, out, rc, err):
         F.append(f)
 
     U = runs.get("U")
-    if rc != 0 or U is None or len(U["pre"]) != T:
+    if rc != 0 or U is None or len(U["steps"]) != T:
         add("harness", "harness:%s:uninterrupted-run-incomplete" % fam,
-            "the uninterrupted run did not complete (rc=%s, %d of %d steps): %s" % (rc, len(U["pre"]) if U else 0, T, err[-300:]))
+            "the uninterrupted run did not complete (rc=%s, %d of %d steps): %s" % (rc, len(U["steps"]) if U else 0, T, err[-300:]))
         return F
-    if any(b["err"] != "err=ok" for b in U["pre"]) or any("err=ok" not in e for _, e in U["events"] if not e.startswith("FRESH")):
+    bad_ev = [e for e in U["events"] if "err=ok" not in e]
+    if any(b["err"] != "err=ok" for b in U["steps"]) or bad_ev:
         add("harness", "harness:%s:uninterrupted-run-error" % fam,
-            "the uninterrupted run reports an error: %s" % [e for _, e in U["events"] if "err=ok" not in e and not e.startswith("FRESH")][:2])
+            "the uninterrupted run reports an error: %s %s" % (bad_ev[:2], [b["it"] for b in U["steps"] if b["err"] != "err=ok"][:3]))
         return F
-    # saving must not change the run
-    C = runs.get("C")
-    if C is not None:
-        bad = None
-        for t, (a, b) in enumerate(zip(U["pre"], C["pre"])):
-            dd = R.diff_blocks(a, b)
-            if dd:
-                bad = (t, dd)
-                break
-        if bad is None and len(C["pre"]) == T:
-            ds = R.diff_states(pre + "U.colvars.state", pre + "C.colvars.state")
-            if ds:
-                bad = (T - 1, ("state:" + ds[0], ds[1], ds[2]))
-        if bad:
-            t, dd = bad
-            add("save-side-effect", "save-changes-run:%s:%s" % (fam, obs_class(dd[0])),
-                "writing the state after every step changes the run: at step %d %s is %r without saving and %r with"
-                % (c["it0"] + t, dd[0], dd[1], dd[2]), K=t)
-        if U["log_pre"] != C["log_pre"]:
-            add("save-side-effect", "save-changes-run:%s:log" % fam, "log lines differ: %r vs %r" % (U["log_pre"][:3], C["log_pre"][:3]))
+    fU = pre + "U.colvars.state"
     for K in c["Ks"]:
         for fmt in c["fmts"]:
-            lab = "R_%d_%s" % (K, fmt)
-            Rr = runs.get(lab)
-            if Rr is None:
-                add("harness", "harness:%s:run-missing" % fam, "run %s missing" % lab, K, fmt)
+            lab = "%d_%s" % (K, fmt)
+            A, B = runs.get("A_" + lab), runs.get("B_" + lab)
+            if A is None or B is None:
+                add("harness", "harness:%s:run-missing" % fam, "run %s missing (rc=%s) %s" % (lab, rc, err[-200:]), K, fmt)
                 continue
-            evs = [e for _, e in Rr["events"]]
-            bad_ev = [e for e in evs if "err=ok" not in e and not e.startswith("FRESH")]
-            if bad_ev:
-                add("load-error", "load:%s:%s" % (fam, bad_ev[0].split()[0].lower() + "-error"),
-                    "stop at step %d, %s state: %s" % (c["it0"] + K, fmt, bad_ev[0]), K, fmt)
+            evA = [e for e in A["events"] if "err=ok" not in e]
+            evB = [e for e in B["events"] if "err=ok" not in e]
+            if evA:
+                add("load-error", "save:%s:%s-error" % (fam, evA[0].split()[0].lower()),
+                    "state written after step %d (%s): %s" % (it0 + K, fmt, evA[0]), K, fmt)
                 continue
-            # the stopped run up to K equals the uninterrupted one (sanity of the harness)
-            for t, (a, b) in enumerate(zip(U["pre"], Rr["pre"])):
-                dd = R.diff_blocks(a, b, tol=0.0)
-                if dd:
-                    add("harness", "harness:%s:prefix-differs" % fam, "step %d: %r" % (t, dd), K, fmt)
-                    break
-            # resumed part
-            if len(Rr["post"]) != T - K:
-                add("resume", "resume:%s:steps" % fam, "stop at %d (%s): the resumed run made %d steps instead of %d"
-                    % (c["it0"] + K, fmt, len(Rr["post"]), T - K), K, fmt)
+            if evB:
+                add("load-error", "load:%s:%s-error" % (fam, evB[0].split()[0].lower()),
+                    "state written after step %d (%s) by the same configuration, fresh instance: %s" % (it0 + K, fmt, evB[0]), K, fmt)
                 continue
-            first = None
-            for j, b in enumerate(Rr["post"]):
-                dd = R.diff_blocks(U["pre"][K + j], b)
-                if dd:
-                    first = (K + j, dd)
-                    break
-            if first:
-                t, dd = first
-                when = "at-restart-step" if t == K else "after"
-                add("resume", "resume:%s:%s:%s" % (fam, obs_class(dd[0]), when),
-                    "stop at step %d, %s state, resume: at step %d %s is %r, uninterrupted run %r"
-                    % (c["it0"] + K, fmt, c["it0"] + t, dd[0], dd[2], dd[1]), K, fmt, t=t, obs=dd[0])
-            else:
-                ds = R.diff_states(pre + "U.colvars.state", pre + lab + ".colvars.state")
-                if ds:
-                    add("resume", "resume:%s:state:%s" % (fam, ds[0]),
-                        "stop at step %d, %s state, resume: final state differs at `%s`: %r, uninterrupted run %r"
-                        % (c["it0"] + K, fmt, ds[0], ds[2], ds[1]), K, fmt, obs="state:" + ds[0])
-                # accumulated data reported through the log (TI of staged restraints)
-                lu = U["log_pre"]
-                lr = Rr["log_pre"] + Rr["log_post"]
-                if not first and not logs_equal(lu, lr):
-                    add("resume", "resume:%s:log:dA/dLambda" % fam,
-                        "stop at step %d, %s state, resume: free-energy derivative lines %r, uninterrupted run %r"
-                        % (c["it0"] + K, fmt, lr[:6], lu[:6]), K, fmt, obs="log")
+            fA, fB = pre + "A_%s.colvars.state" % lab, pre + "B_%s.colvars.state" % lab
+            # A = U
+            dd = first_diff(U["steps"], A["steps"], fU, fA)
+            if dd:
+                t, (obs, x, y) = dd
+                add("save-side-effect", "save-changes-run:%s:%s" % (fam, obs_class(obs)),
+                    "writing the state (%s) after step %d changes the run: %s %s is %r, without the save %r"
+                    % (fmt, it0 + K, "at step %d" % (it0 + t) if t is not None else "in the final state", obs, y, x),
+                    K, fmt, t=t, obs=obs)
+            # B = A
+            dd = first_diff(A["steps"], B["steps"], fA, fB, off=K, resumed=True)
+            if dd:
+                t, (obs, x, y) = dd
+                when = "final" if t is None else ("at-restart-step" if t == K else "after")
+                add("resume", "resume:%s:%s:%s" % (fam, obs_class(obs), when),
+                    "stop after step %d, %s state, fresh instance, load, continue: %s %s is %r, in the run that went on %r"
+                    % (it0 + K, fmt, "at step %d" % (it0 + t) if t is not None else "in the final state", obs, y, x),
+                    K, fmt, t=t, obs=obs)
             # saving immediately after loading reproduces the loaded state
-            f1 = "%s%s_a.colvars.state" % (pre, lab)
-            f2 = "%s%s_b.colvars.state" % (pre, lab)
+            f1 = "%sa_%s.colvars.state" % (pre, lab)
+            f2 = "%sb_%s.colvars.state" % (pre, lab)
             if not R.files_equal(f1, f2):
                 if fmt == "text":
                     ds = R.diff_states(f1, f2, tol=0.0)
                     det = "first difference at `%s`: loaded %r, written back %r" % ds if ds else "white space only"
                     key = ds[0] if ds else "format"
                 else:
-                    det = "binary files differ"
+                    det = "the binary files differ"
                     key = "bytes"
                 add("save-after-load", "save-after-load:%s:%s" % (fam, key),
-                    "state saved at step %d (%s), loaded in a fresh instance and saved again: %s" % (c["it0"] + K, fmt, det), K, fmt)
+                    "state written after step %d (%s), loaded in a fresh instance and written again: %s" % (it0 + K, fmt, det), K, fmt)
     return F
 
 
-def parse_log_line(l):
-    import re
-    m = re.search(r"Lambda=\s*(\S+)\s+dA/dLambda=\s*(\S+)", l)
-    return (float(m.group(1)), float(m.group(2))) if m else None
-
-
-def logs_equal(a, b):
-    pa = [parse_log_line(x) for x in a]
-    pb = [parse_log_line(x) for x in b]
-    if len(pa) != len(pb):
-        return False
-    for x, y in zip(pa, pb):
-        if x is None or y is None:
-            return False
-        if not (R.close(x[0], y[0], 1e-5) and R.close(x[1], y[1], 2e-5)):
-            return False
-    return True
-
-
-def run_cases(exe, cases, d):
+def run_cases(exe, cases, d, keep=False, callback=None):
+    """-> per case: findings, or (findings, callback(c, parsed runs)) when a callback is given"""
     def one(c):
-        lines = R.scenario(c, d, plan(c))
-        c["_nlines"] = len(lines)
+        lines = R.scenario(c, d)
         rc, out, err = run_scenario(exe, lines)
+        c["_nsteps"] = sum(1 for l in out if l.startswith("STEP"))
         F = judge(c, d, out, rc, err)
-        # keep the scratch directory small
-        pre = "c%s_" % c["id"]
-        for fn in os.listdir(d):
-            if fn.startswith(pre):
-                try:
-                    os.remove(os.path.join(d, fn))
-                except OSError:
-                    pass
-        return F
+        extra = None
+        if callback is not None:
+            try:
+                extra = callback(c, R.parse_runs(out))
+            except Exception as ex:    # a comparator bug must not hide the oracle's verdict
+                import traceback
+                extra = [("tie:exception", {}, None, traceback.format_exc()[-600:])]
+        if not keep:
+            pre = "c%s_" % c["id"]
+            for fn in os.listdir(d):
+                if fn.startswith(pre):
+                    try:
+                        os.remove(os.path.join(d, fn))
+                    except OSError:
+                        pass
+        return F if callback is None else (F, extra)
     with ThreadPoolExecutor(max_workers=JOBS) as ex:
         return list(ex.map(one, cases))
